@@ -59,9 +59,11 @@ CONSTANTS Node,          \* node ids
           FixD4,         \* TRUE = snapshot labelled with the configuration in force at the snapshot index (repaired)
           FixD11,        \* TRUE = a stale log view reports entries in removed segments as not found (repaired)
           FixD3,         \* TRUE = canChangeConfig requires an own-term commit (repaired)
+          FixD19,        \* TRUE = a locally taken snapshot never replaces a newer installed one (repaired)
           FixD13,        \* TRUE = a follower flushes its log before every successful append reply (repaired)
           FixD5,         \* TRUE = onSnapshotTaken keeps leader.removeLTE >= log.PrevIndex (repaired)
           FixD2,         \* TRUE = leader.changeConfig caches numVoters of the NEW configuration (repaired)
+          NetFaults,     \* TRUE: a dial / an RPC may fail although the peer is running (partitions)
           ClientOps,     \* kinds of client operations the model submits: subset of {"update", "read", "barrier", "dirty"}
           MaxXfers,      \* bound on leadership-transfer requests
           MaxXferTries,  \* bound on timeout-now requests per node incarnation
@@ -804,10 +806,11 @@ ConsumeSelfFirst(s) == IF s.selfVote THEN Post(OnVoteResult([s EXCEPT !.selfVote
 Identity(s, from) == IF s.state = "F" /\ from = s.leader THEN ResetTimer(s) ELSE s
 
 \* deliver a vote / timeout-now request
-RpcReq(m) ==
+\* drop: the request never reaches the peer although it is running (partition); the dialer sees an error
+RpcReqX(m, drop) ==
     /\ m \in rpcs /\ m.phase = 0
     /\ LET n == m.to IN
-       IF ~Up(n)
+       IF ~Up(n) \/ drop
        THEN \* the dialer sees an error; its (ignored) result goes through respCh, behind the self vote
             LET c == node[m.from]
                 cur == Up(m.from) /\ m.kind = "vote" /\ c.state = "C" /\ c.term = m.term
@@ -816,7 +819,7 @@ RpcReq(m) ==
             IN Commit(IF cur THEN [node EXCEPT ![m.from] = ConsumeSelfFirst(c)]
                       ELSE IF xcur THEN [node EXCEPT ![m.from] = Post(MaybeLdrUpdates(OnTimeoutNowResult(c, m.to, "err")))]
                       ELSE node, rpcs \ {m}, orph,
-                      [kind |-> m.kind \o "Req", n |-> n, from |-> m.from, term |-> m.term, lost |-> TRUE])
+                      [kind |-> m.kind \o "Req", n |-> n, from |-> m.from, term |-> m.term, lost |-> TRUE] @@ (IF drop THEN [dropped |-> TRUE] ELSE << >>))
        ELSE LET s0 == Identity(node[n], m.from)
                 pre == s0.leader
                 h  == IF m.kind = "vote" THEN OnVoteRequest(s0, m) ELSE OnTimeoutNowRequest(s0)
@@ -830,6 +833,8 @@ RpcReq(m) ==
                       [kind |-> m.kind \o "Req", n |-> n, from |-> m.from, term |-> m.term, transfer |-> m.transfer,
                        result |-> h.result, respTerm |-> h.s.term, preLeader |-> pre])
     /\ UNCHANGED ctr
+
+RpcReq(m) == RpcReqX(m, FALSE)
 
 \* deliver a response to the node that sent the request (m.from)
 RpcResp(m) ==
@@ -863,18 +868,20 @@ Disconnected(n, p) ==
 \* ---- replication ----
 LiveRepl(i, j) == Up(i) /\ node[i].cur = "L" /\ node[i].state = "L" /\ j \in DOMAIN node[i].ldr.repl /\ ~Repl(node[i], j).ended
 
-ReplSend(i, j) ==
+\* dialFail: connPool.getConn fails although the peer is running (unreachable: partition, dial timeout)
+ReplSendX(i, j, dialFail) ==
     /\ LiveRepl(i, j)
+    /\ (dialFail => ~Repl(node[i], j).up)
     /\ LET s == node[i]
            r == Repl(s, j)
        IN IF ~r.up
           THEN \* runLoop: (after a failure) poll, then getConn: dial + identity handshake
                LET sp == IF r.failures > 0 THEN Poll(s, j) ELSE s IN
-               IF ~Up(j)
+               IF ~Up(j) \/ dialFail
                THEN LET s1 == [sp EXCEPT !.ldr.repl[j].failures = r.failures + 1]
                         s2 == IF r.failures = 0 THEN NotifyNoContact(s1, j, TRUE) ELSE s1
                     IN Commit([node EXCEPT ![i] = Post(MaybeLdrUpdates(s2))], rpcs, orph,
-                              [kind |-> "replSend", i |-> i, j |-> j, connect |-> "failed"])
+                              [kind |-> "replSend", i |-> i, j |-> j, connect |-> "failed"] @@ (IF dialFail THEN [dialFail |-> TRUE] ELSE << >>))
                ELSE LET t1 == Post(Identity(node[j], i))
                         s1 == [sp EXCEPT !.ldr.repl[j].up = TRUE, !.ldr.repl[j].mode = "probe", !.ldr.repl[j].failures = 0, !.ldr.repl[j].pdead = FALSE]
                         s2 == IF r.failures > 0 THEN Poll(NotifyNoContact(s1, j, FALSE), j) ELSE s1
@@ -899,6 +906,8 @@ ReplSend(i, j) ==
                      /\ LET w == ReplWrite(s1, j)
                         IN Commit([node EXCEPT ![i] = Post(MaybeLdrUpdates(w.s))], rpcs, orph, WriteEv(w, i, j, "pipe"))
     /\ UNCHANGED ctr
+
+ReplSend(i, j) == ReplSendX(i, j, FALSE)
 
 \* the server side handles the head request of the current connection
 HandleAppend(j, req) ==
@@ -1102,14 +1111,19 @@ SnapGAsk(n) ==
     /\ Commit([node EXCEPT ![n].snapG.pc = "asked", ![n].fsmQ = Append(@, [kind |-> "snapReq", target |-> node[n].snapG.target])], rpcs, orph,
               [kind |-> "snapGAsk", n |-> n])
     /\ UNCHANGED ctr
+\* snapshotSink.done: the stored snapshot becomes the latest one
+\* (FixD19: unless a newer snapshot was installed while this one was being written; retain = 1 then removes the older files)
+StoreSnapshot(s, g) ==
+    IF FixD19 /\ g.idx <= s.snapIdx THEN s
+    ELSE [s EXCEPT !.snapIdx = g.idx, !.snapTerm = g.term, !.snapCfg = g.cfg, !.snapCmds = g.cmds]
 \* doTakeSnapshot: snaps.new + Persist + sink.done (data file, then meta renamed into place; retain = 1)
 SnapGStore(n) ==
     /\ Up(n) /\ node[n].snapG.pc \in {"got", "err"}
     /\ LET s == node[n]
            g == s.snapG
        IN IF g.pc = "err" THEN Commit([node EXCEPT ![n].snapG.pc = "stored"], rpcs, orph, [kind |-> "snapGStore", n |-> n, err |-> g.err])
-          ELSE Commit([node EXCEPT ![n] = [s EXCEPT !.snapIdx = g.idx, !.snapTerm = g.term, !.snapCfg = g.cfg, !.snapCmds = g.cmds, !.snapG.pc = "stored"]],
-                      rpcs, orph, [kind |-> "snapGStore", n |-> n, index |-> g.idx])
+          ELSE LET s1 == StoreSnapshot(s, g) IN
+               Commit([node EXCEPT ![n] = [s1 EXCEPT !.snapG.pc = "stored"]], rpcs, orph, [kind |-> "snapGStore", n |-> n, index |-> s1.snapIdx])
     /\ UNCHANGED ctr
 \* fsm.go onSnapshotTaken (stateLoop `case t := <-r.snapTakenCh`)
 OnSnapshotTaken(s) ==
@@ -1137,7 +1151,7 @@ FinishSnapshot(s) ==
                    THEN [s EXCEPT !.snapG.pc = "asked", !.fsmQ = Append(@, [kind |-> "snapReq", target |-> s.snapG.target])] ELSE s
              s2 == FsmUntilAnswered(s1)
              g  == s2.snapG
-             s3 == IF g.pc = "got" THEN [s2 EXCEPT !.snapIdx = g.idx, !.snapTerm = g.term, !.snapCfg = g.cfg, !.snapCmds = g.cmds, !.snapG.pc = "stored"]
+             s3 == IF g.pc = "got" THEN [StoreSnapshot(s2, g) EXCEPT !.snapG.pc = "stored"]
                    ELSE IF g.pc = "err" THEN [s2 EXCEPT !.snapG.pc = "stored"] ELSE s2
          IN IF s3.snapG.pc = "stored" THEN OnSnapshotTaken(s3) ELSE s3
 SnapshotTaken(n) ==
@@ -1208,7 +1222,8 @@ Next ==
     \/ \E n \in Node, t \in XferTargets : TransferOp(n, t)
     \/ \E n \in Node : XferTimeout(n) \/ NewTermTimeout(n)
     \/ \E n \in Node : Timeout(n) \/ SelfVote(n) \/ Client(n) \/ Fsm(n) \/ Crash(n) \/ Restart(n) \/ LdrUpdates(n)
-    \/ \E m \in rpcs : RpcReq(m) \/ RpcResp(m)
+    \/ \E m \in rpcs : RpcReq(m) \/ RpcResp(m) \/ (NetFaults /\ RpcReqX(m, TRUE))
+    \/ \E i, j \in Node : NetFaults /\ ReplSendX(i, j, TRUE)
     \/ \E n, p \in Node : Disconnected(n, p)
     \/ \E i, j \in Node : ReplSend(i, j) \/ AppendReq(i, j) \/ AppendResp(i, j) \/ ReplFail(i, j) \/ ReplPoll(i, j)
     \/ \E k \in 1..Len(orph) : OrphanReq(k)
